@@ -51,7 +51,8 @@ def parse_file(path, settings, source_name):
         txns = parse_generic_csv(path, src['_format_spec'], [], source_name=src.get('name', 'CSV'),
                                  decimal_separator=src.get('decimal_separator', '.'))
     except Exception as e:
-        return {'exception': '%s: %s' % (type(e).__name__, e)}
+        root_ = os.path.dirname(os.path.dirname(path))
+        return {'exception': ('%s: %s' % (type(e).__name__, e)).replace(os.path.realpath(root_), '<ROOT>').replace(root_, '<ROOT>')}
     out = []
     for t in txns:
         a = t['amount']
@@ -78,7 +79,8 @@ def parse_reuse(path, settings):
         try:
             txns = parse_generic_csv(path, spec, [], source_name=nm, decimal_separator=src.get('decimal_separator', '.'))
         except Exception as e:
-            reads.append({'exception': '%s: %s' % (type(e).__name__, e)})
+            root_ = os.path.dirname(os.path.dirname(path))
+            reads.append({'exception': ('%s: %s' % (type(e).__name__, e)).replace(os.path.realpath(root_), '<ROOT>').replace(root_, '<ROOT>')})
             continue
         reads.append({'txns': [{'description': t['raw_description'], 'date': t['date'].strftime('%Y-%m-%d'),
                                 'amount': t['amount'] if math.isfinite(t['amount']) else repr(t['amount']), 'source': t['source'],
